@@ -97,6 +97,13 @@ def check_value(v, part, kind, feature=None, full=True):
     k2, out8 = lib(v, utf8=True)
     if k2 != "ok" or out8 != exp.encode("utf-8"):
         part.violation("C16/utf8-form/%s" % feat, "utf8=True output is not the UTF-8 encoding of the canonical text", case, exp, [k2, repr(out8)[:100]], repro)
+    from stix2.canonicalization.Canonicalize import canonicalize
+    try:
+        dflt = canonicalize(v)
+    except Exception as e:
+        dflt = "%s: %s" % (type(e).__name__, str(e)[:80])
+    if dflt != exp.encode("utf-8"):
+        part.violation("C16/default-call/%s" % feat, "canonicalize(value) with its options left at their defaults is not the UTF-8 encoding of the canonical text (RFC 8785 3.2.4)", case, exp, repr(dflt)[:100], repro)
     try:
         back = json.loads(out)
     except Exception as e:
@@ -269,6 +276,7 @@ def run_structures(case, part):
         idx += 1
         if idx % nshards != shard:
             continue
+        check_value(a, part, "structure", "top-level-value", full=True)          # the value on its own: scalars and empty containers at the top level
         check_value([a], part, "structure", "structure", full=True)
         check_value({"b": a}, part, "structure", "structure", full=True)
         for b in d2:
